@@ -66,8 +66,25 @@ def metadata_steps(text, static_name):
 
 
 KIND = {"add": "FieldAdded", "opt": "FieldMadeOptional", "rem": "FieldRemoved", "tra": "FieldMadeTransient"}
-READ = re.compile(r"deserializer\.(read_field|read_optional_field)\(\"([^\"]+)\",\s*(Some|None)")
-WRITE = re.compile(r"serializer\.write_field\(\"([^\"]+)\"")
+# the names of the generated local variables are not part of the procedure
+READ = re.compile(r"\b\w+\.(read_field|read_optional_field)\(\"([^\"]+)\",\s*(Some|None)")
+WRITE = re.compile(r"\b\w+\.write_field\(\"([^\"]+)\"")
+READ_CTOR = re.compile(r"\b\w+\.read_constructor\(")
+
+
+def branches(found, want):
+    """A list of calls as the expansion has it: once (one body shared by the two stored-version branches) or once per
+    branch. Returns (first, second-or-None): second is set only when there are two halves that differ."""
+    found = [tuple(x) if isinstance(x, (list, tuple)) else x for x in found]
+    want = [tuple(x) if isinstance(x, (list, tuple)) else x for x in want]
+    if found == want:
+        return found, None
+    h = len(found) // 2
+    if len(found) % 2 == 0 and found[:h] == found[h:]:
+        return found[:h], None
+    if len(found) % 2 == 0 and found:
+        return found[:h], found[h:]
+    return found, None
 
 
 def expected_record(rec):
@@ -81,13 +98,12 @@ def expected_record(rec):
     return {"steps": steps, "v0": not rec["steps"], "writes": writes, "reads": reads}
 
 
-def actual_record(text, ser_blk, de_blk, static_name):
+def actual_record(text, ser_blk, de_blk, static_name, want_reads):
     steps = metadata_steps(text, static_name)
-    reads = READ.findall(de_blk)
-    half = len(reads) // 2
+    first, second = branches(READ.findall(de_blk), want_reads)
     return {"steps": steps, "v0": ("AdtSerializer::new_v0(&" + static_name) in ser_blk,
             "writes": WRITE.findall(ser_blk),
-            "reads": [tuple(r) for r in reads[:half]], "reads_second_branch": [tuple(r) for r in reads[half:]]}
+            "reads": first, "reads_second_branch": second}
 
 
 def case_order(d):
@@ -113,7 +129,7 @@ def validate():
         n += 1
         if d["kind"] == "rec":
             exp = expected_record(d)
-            act = actual_record(text, ser, de, name.upper() + "_METADATA")
+            act = actual_record(text, ser, de, name.upper() + "_METADATA", exp["reads"])
             for k in ("steps", "v0", "writes", "reads"):
                 if [tuple(x) if isinstance(x, (list, tuple)) else x for x in (act[k] if isinstance(act[k], list) else [act[k]])] != \
                    [tuple(x) if isinstance(x, (list, tuple)) else x for x in (exp[k] if isinstance(exp[k], list) else [exp[k]])]:
@@ -124,7 +140,7 @@ def validate():
                 mism.append(f"{name}: the stored-version-0 branch does not read with the type's own metadata {sn}")
             if not re.search(r"AdtDeserializer::new\(&\s*" + re.escape(sn), de):
                 mism.append(f"{name}: the evolved branch does not read with the type's own metadata {sn}")
-            if act["reads_second_branch"] != act["reads"]:
+            if act["reads_second_branch"] is not None:
                 mism.append(f"{name}: the stored-version-0 branch and the evolved branch read different fields: "
                             f"{act['reads']} / {act['reads_second_branch']}")
             continue
@@ -155,16 +171,16 @@ def validate():
             if st != exp["steps"]:
                 mism.append(f"{name}::{v['name']}: steps {st} / declaration {exp['steps']}")
         # deserializer: the sequence of read_constructor calls (it appears once per stored-version branch)
-        chunks = de.split("deserializer.read_constructor(")[1:]
+        chunks = READ_CTOR.split(de)[1:]
         seq = []
         for ch in chunks:
             mi = re.match(r"(\d+)usize", ch)
-            tr = "DeserializingTransientConstructor" in ch.split("deserializer.unknown_constructor")[0][:600] and \
+            tr = "DeserializingTransientConstructor" in re.split(r"\b\w+\.unknown_constructor", ch)[0][:600] and \
                  "Ok(%s::" % name not in ch.split("})?")[0]
             mv = re.search(r"Ok\(%s::(\w+)" % re.escape(name), ch)
             mt = re.search(r"constructor_name:\s*\"([^\"]+)\"", ch)
             vname = mt.group(1) if tr and mt else (mv.group(1) if mv else None)
-            body = ch.split("deserializer.read_constructor(")[0]
+            body = READ_CTOR.split(ch)[0]
             rd = READ.findall(body)
             if not tr and vname:
                 sn = f"{name.upper()}_{vname.upper()}_METADATA"
@@ -172,14 +188,19 @@ def validate():
                     if not re.search(r"AdtDeserializer::%s\(&\s*%s\b" % (ctor, re.escape(sn)), body):
                         mism.append(f"{name}::{vname}: the {'stored-version-0' if ctor == 'new_v0' else 'evolved'} branch of the "
                                     f"constructor's reader does not use the constructor's own metadata {sn}")
-            seq.append((int(mi.group(1)) if mi else None, vname, tr, [tuple(r) for r in rd[:len(rd) // 2]]))
+            vdecl = [v for v in d["variants"] if v["name"] == vname]
+            rfirst, rsecond = branches(rd, expected_record(vdecl[0])["reads"] if vdecl and not vdecl[0]["transient"] else [])
+            if rsecond is not None:
+                mism.append(f"{name}::{vname}: the two stored-version branches of the constructor's reader read different "
+                            f"fields: {rfirst} / {rsecond}")
+            seq.append((int(mi.group(1)) if mi else None, vname, tr, rfirst))
         want = []
         for cidx, j in enumerate(order):
             v = d["variants"][j]
             want.append((cidx, v["name"], bool(v["transient"]), [] if v["transient"] else expected_record(v)["reads"]))
-        half = len(seq) // 2
-        if seq[:half] != want:
-            mism.append(f"{name}: constructors read as {seq[:half]} / declaration {want}")
-        if seq[half:] != seq[:half]:
+        sfirst, ssecond = branches(seq, want)
+        if sfirst != want:
+            mism.append(f"{name}: constructors read as {sfirst} / declaration {want}")
+        if ssecond is not None:
             mism.append(f"{name}: the two stored-version branches of the enum reader differ")
     return n, mism
